@@ -4,7 +4,7 @@ From Coq Require Import NArith Arith Bool List Lia.
 From CppUVerif Require Import C10_Wiring gen.Gen_C10 C10_Model C10_Steps.
 Import ListNotations.
 
-Definition in_cs (p : phase) : bool := match p with PLocked | PRead _ | PExit | PFailing => true | _ => false end.
+(* in_cs (C10_Model.v): the phases between the return of Lock() and the call of Unlock() *)
 
 (* every entry point of the wiring takes the lock first *)
 Definition all_lock (c : cfg) : Prop := forall o e, op_entry o = Some e -> op_locks c o = true.
@@ -260,3 +260,51 @@ Lemma complete_done : forall st, LockInv st -> all_done (complete c st) = true /
 Proof. intros. apply drain_done; auto. Qed.
 
 End Lock.
+
+(* ---------------- occupancy of the locked region: never more than one thread, in any state an execution goes through *)
+Lemma filter_nil_of : forall A (p : A -> bool) (l : list A), (forall x, In x l -> p x = false) -> filter p l = [].
+Proof. induction l as [|a l IH]; simpl; intros H; auto. rewrite (H a) by auto. apply IH. auto. Qed.
+
+Lemma filter_at_most_one : forall A (p : A -> bool) (l : list A),
+  (forall i j x y, nth_error l i = Some x -> nth_error l j = Some y -> p x = true -> p y = true -> i = j) ->
+  length (filter p l) <= 1.
+Proof.
+  induction l as [|a l IH]; simpl; intros H; [lia|].
+  destruct (p a) eqn:Ha.
+  - rewrite filter_nil_of; [simpl; lia|].
+    intros x Hx. destruct (p x) eqn:Hp; auto. apply In_nth_error in Hx. destruct Hx as (j & Hj).
+    specialize (H 0 (S j) a x eq_refl Hj Ha Hp). discriminate.
+  - apply IH. intros i j x y Hi Hj Hx Hy. specialize (H (S i) (S j) x y Hi Hj Hx Hy). lia.
+Qed.
+
+Lemma occupancy_le_1 : forall st, LockInv st -> occupancy st <= 1.
+Proof.
+  intros st I. unfold occupancy. apply filter_at_most_one.
+  intros i j x y Hi Hj Hx Hy. eapply mutex_of_inv; eauto.
+Qed.
+
+Lemma exec_peak_le_1 : forall c, all_lock c -> cfg_reporter_unlocks c = true ->
+  forall sched st, LockInv st -> exec_peak c sched st <= 1.
+Proof.
+  intros c Hl Hu. induction sched as [|t r IH]; simpl; intros st I.
+  - apply occupancy_le_1; auto.
+  - apply Nat.max_lub. apply occupancy_le_1; auto. apply IH. eapply lockinv_step; eauto. apply step_tstep.
+Qed.
+
+Lemma drain_peak_le_1 : forall c, all_lock c -> cfg_reporter_unlocks c = true ->
+  forall fuel st, LockInv st -> drain_peak c fuel st <= 1.
+Proof.
+  intros c Hl Hu. induction fuel as [|f IH]; simpl; intros st I.
+  - apply occupancy_le_1; auto.
+  - destruct (first_enabled c st) as [t|].
+    + apply Nat.max_lub. apply occupancy_le_1; auto. apply IH. eapply lockinv_step; eauto. apply step_tstep.
+    + apply occupancy_le_1; auto.
+Qed.
+
+Lemma run_peak_le_1 : forall c, all_lock c -> cfg_reporter_unlocks c = true ->
+  forall sched st, LockInv st -> run_peak c sched st <= 1.
+Proof.
+  intros c Hl Hu sched st I. unfold run_peak. apply Nat.max_lub.
+  - apply exec_peak_le_1; auto.
+  - apply drain_peak_le_1; auto. apply lockinv_exec; auto.
+Qed.
